@@ -108,9 +108,17 @@ fn tabs_of(v: &Value) -> Vec<Vec<u8>> {
 
 /// the ADF of the harnesses: variables first (as Adf::from_parser does), then Shannon expansion of every table
 pub fn adf_from_tabs(n: usize, tabs: &[Vec<u8>]) -> Adf {
+    adf_from_tabs_opt(n, tabs, false)
+}
+
+/// `novars`: the bare variable nodes are not created up front - the shape of a store that came over the biodivine bridge
+/// (Adf::from_biodivine_vector only inserts the nodes of the diagrams)
+pub fn adf_from_tabs_opt(n: usize, tabs: &[Vec<u8>], novars: bool) -> Adf {
     let mut bdd = Bdd::new();
     for v in 0..n {
-        bdd.variable(Var(v));
+        if !novars {
+            bdd.variable(Var(v));
+        }
     }
     let acs: Vec<Term> = tabs.iter().map(|t| shannon(&mut bdd, t, n, 0, 0)).collect();
     Adf::from((VarContainer::default(), bdd, acs))
@@ -300,7 +308,9 @@ fn ng_read(v: usize, ng: &NoGood) -> Value {
 
 pub fn ng_cmd(v: &Value) -> Value {
     let nv = us(&v["V"]);
-    let mut st = NoGoodStore::new(nv as u32);
+    // "size": the constructor argument (number of arity buckets); by default the number of variables, as the search uses it
+    let size = if v["size"].is_null() { nv } else { us(&v["size"]) };
+    let mut st = NoGoodStore::new(size as u32);
     let modes = v["modes"].as_array().unwrap();
     for (k, ng) in v["nogoods"].as_array().unwrap().iter().enumerate() {
         let m = modes[k].as_str().unwrap();
@@ -577,7 +587,8 @@ fn final_call(adf: &mut Adf, fin: &str, n: usize, v: &Value) -> Value {
 pub fn adf_persist(v: &Value) -> Value {
     let n = us(&v["n"]);
     let tabs = tabs_of(&v["tabs"]);
-    let mut adf = adf_from_tabs(n, &tabs);
+    let novars = v["novars"].as_bool().unwrap_or(false);
+    let mut adf = adf_from_tabs_opt(n, &tabs, novars);
     for c in v["history"].as_array().unwrap() {
         api_call(&mut adf, c.as_str().unwrap(), n, v);
     }
@@ -597,7 +608,7 @@ pub fn adf_persist(v: &Value) -> Value {
     let fin = v["final"].as_str().unwrap();
     let after = final_call(&mut back, fin, n, v);
     let (probe_wrong, probe_detail) = run_probe(&mut back, &v["probe"], n);
-    let mut fresh_adf = adf_from_tabs(n, &tabs);
+    let mut fresh_adf = adf_from_tabs_opt(n, &tabs, novars);
     let fresh = final_call(&mut fresh_adf, fin, n, v);
     json!({"nodes_before": nodes_before, "nodes_after": nodes_after, "ac_before": ac_before, "ac_after": ac_after,
            "after": after, "fresh": fresh, "nodes_final": dump_nodes(&back.bdd), "probe_wrong": probe_wrong, "probe_detail": probe_detail})
